@@ -7,6 +7,9 @@ async sources, FilePolicySource on a temp dir, HTTPPolicySource against a fake
 model (Reload.v / Sources.v, runner "reload").  After every command the observables
 are compared, and the clauses of the property are judged on the implementation's own
 behaviour (safety, inert failures, bounded window, convergence on a stable tail).
+Two overlapping checks are driven through every interleaving of their atomic steps on real
+threads (gates at the source calls and at guard.set_policy); the atomicity of "install the
+document + record its tag" that the model's step granularity assumes is tested there too.
 """
 import asyncio
 import hashlib
@@ -494,6 +497,44 @@ def locks_all_free(obj, timeout=5.0):
     return True
 
 
+class GateLock:
+    """stands in for a lock attribute of the reloader while overlapping checks are scheduled: same semantics
+    (delegates to the real lock), but it knows which thread holds it and tells the scheduler when a thread that
+    holds nothing is about to take it (hook; the thread may be parked there, before it holds anything)."""
+
+    def __init__(self, inner, hook):
+        self._inner, self._hook, self._depth = inner, hook, {}
+
+    def acquire(self, blocking=True, timeout=-1):
+        me = threading.get_ident()
+        if not self._depth.get(me):
+            self._hook(self)
+        ok = self._inner.acquire(blocking, timeout)
+        if ok:
+            self._depth[me] = self._depth.get(me, 0) + 1
+        return ok
+
+    def release(self):
+        me = threading.get_ident()
+        self._inner.release()
+        self._depth[me] = self._depth.get(me, 0) - 1
+
+    def __enter__(self):
+        return self.acquire()
+
+    def __exit__(self, *a):
+        self.release()
+
+    def _is_owned(self):
+        return self._depth.get(threading.get_ident(), 0) > 0
+
+    def locked(self):
+        return any(v > 0 for v in self._depth.values())
+
+    def __getattr__(self, n):
+        return getattr(self._inner, n)
+
+
 # --------------------------------------------------------------------------
 # running a case on the implementation
 # --------------------------------------------------------------------------
@@ -892,6 +933,10 @@ def conc_tail_verdict(c, out):
         l_seen = [x[1] for x in th[w]["calls"] if x[0] == "load"]
         last_apply = (e_seen[0] if e_seen else None, l_seen[0] if l_seen else None)
         coherent = w in out["policy_loaded_by"]
+        if (out.get("sp_unlocked") or out.get("sp_gap")) and w not in tail and sum(1 for i in appliers if i not in tail) > 1:
+            # set_policy ran outside the reloader's lock and both overlapping checks applied: who recorded the tag
+            # last is not known from the order of return alone - not classified as one of the open findings
+            coherent = False
     verdict, detail = tail_core(c, out, view, last_apply, out["final_content"], coherent)
     if verdict == "failed":
         detail = (detail[0], dict(detail[1], remembered_tag=view[2]["stored"],
@@ -1183,9 +1228,12 @@ def impl_run_conc(c):
     guard's set_policy passes through a gate at its entry and exit as well; a check that gets there WITHOUT holding
     a lock of the reloader parks (out["sp_unlocked"]), so that the other check can be scheduled between
     {load() returned | set_policy | bookkeeping}; with the lock held the gate is passed (parking there could only
-    block the others, i.e. the block is atomic with respect to every other check).  A step command for a check that
+    block the others, i.e. the block is atomic with respect to every other check).  The reloader's lock attributes
+    are replaced by GateLock stand-ins: a check whose set_policy call returned under a lock, and which then takes a
+    reloader lock afresh, is parked before taking it (out["sp_gap"]: install and bookkeeping sit in two separate
+    lock blocks).  A step command for a check that
     has already returned is a no-op on both sides, so scripts simply give every check six steps."""
-    out = {"snaps": [], "error": None, "results": {}, "sp_unlocked": 0, "sp_locked": 0, "finish_order": []}
+    out = {"snaps": [], "error": None, "results": {}, "sp_unlocked": 0, "sp_locked": 0, "sp_gap": 0, "finish_order": []}
     turns = Turns()
     names = {}
 
@@ -1200,24 +1248,42 @@ def impl_run_conc(c):
         if me is None:
             return
         if name == "set_policy":
-            if holds_a_lock_of(su.r):
-                if where == "enter":
-                    out["sp_locked"] += 1
-                return
+            held = holds_a_lock_of(su.r)
             if where == "enter":
-                out["sp_unlocked"] += 1
-            turns.gate(me)
+                out["sp_locked" if held else "sp_unlocked"] += 1
+            else:
+                after_sp[me] = "returned"
+            if not held:
+                if where == "exit":
+                    after_sp[me] = "parked"
+                turns.gate(me)
             return
         if where == "enter":
             turns.gate(me)
         elif name == "load" or (kind == "exc" and not forces.get(me)):
             turns.gate(me)
 
+    after_sp = {}
+
+    def on_acquire(lock):
+        """a check that holds no lock of the reloader is about to take one.  If its set_policy call has returned and
+        it has not been parked since (set_policy ran under a lock that has been released in the meantime), this is
+        the gap between installing the document and the bookkeeping: park here."""
+        me = names.get(threading.get_ident())
+        if me is None or after_sp.get(me) != "returned" or holds_a_lock_of(su.r):
+            return
+        after_sp[me] = "parked"
+        out["sp_gap"] += 1
+        turns.gate(me)
+
     try:
         su = Setup(c, gate)
     except Exception as e:  # noqa: BLE001
         out["error"] = "setup raised %s: %s" % (type(e).__name__, e)
         return out
+    for k_, v_ in list(vars(su.r).items()):
+        if _lock_like(v_):
+            setattr(su.r, k_, GateLock(v_, on_acquire))
     su.probe.who = lambda: names.get(threading.get_ident())
     threads = []
     done_at = {}
@@ -1265,8 +1331,9 @@ def impl_run_conc(c):
                 if i < len(threads) and i not in turns.done:
                     nowmap[i], umap[i] = float(now), float(u)
                     # model steps: 0 start | 1 etag | 2 load | 3 apply/err.  Thread gates: before etag (after
-                    # start), after etag, after load.  Step k = run to the next gate; the step after an
-                    # exception / after the last gate runs to the end.
+                    # start), after etag, after load (and, only if reached without the reloader's lock, at the
+                    # entry / exit of set_policy or in the gap before the bookkeeping lock).  Step k = run to the
+                    # next gate; the step after an exception / after the last gate runs to the end.
                     if not turns.grant(i):
                         out["error"] = "scheduler time-out (dead-lock?) at %r" % (cmd,)
                         break
@@ -1561,7 +1628,7 @@ def check_cases(chk, cases, replay=False):
                 break
 
 
-NONATOMIC = {"with_lock": 0, "without_lock": 0, "cases": 0}
+NONATOMIC = {"with_lock": 0, "without_lock": 0, "gap": 0, "cases": 0}
 
 
 def _check_conc(chk, c, out, m_out):
@@ -1571,7 +1638,8 @@ def _check_conc(chk, c, out, m_out):
     snaps = out["snaps"]
     NONATOMIC["with_lock"] += out.get("sp_locked", 0)
     NONATOMIC["without_lock"] += out.get("sp_unlocked", 0)
-    if out.get("sp_unlocked"):
+    NONATOMIC["gap"] += out.get("sp_gap", 0)
+    if out.get("sp_unlocked") or out.get("sp_gap"):
         NONATOMIC["cases"] += 1
         chk.count("conc:set_policy-without-reloader-lock")
     if len(snaps) != len(m_out):
@@ -1602,7 +1670,8 @@ def _check_conc(chk, c, out, m_out):
     if verdict == "failed":
         chk.violation("after two overlapping checks: " + detail[0], c,
                       impl={"detail": detail[1], "checks": out["threads"], "returned_in_order": out["finish_order"],
-                            "set_policy_entered_without_reloader_lock": out.get("sp_unlocked", 0), "snaps": snaps},
+                            "set_policy_entered_without_reloader_lock": out.get("sp_unlocked", 0),
+                            "reloader_lock_released_between_set_policy_and_bookkeeping": out.get("sp_gap", 0), "snaps": snaps},
                       model=m_out)
         return
     for ix, (i_s, m_s) in enumerate(zip(snaps, m_out)):
@@ -1611,10 +1680,11 @@ def _check_conc(chk, c, out, m_out):
             bad.append("which checks have returned what")
         if bad:
             why = ""
-            if out.get("sp_unlocked"):
-                why = (" [guard.set_policy was entered %d times without the reloader's lock: installing the document "
-                       "and recording its tag is not the one atomic step of the model (Reload.step, PApply)]"
-                       % out["sp_unlocked"])
+            if out.get("sp_unlocked") or out.get("sp_gap"):
+                why = (" [guard.set_policy was entered %d times without a lock of the reloader, %d times a lock was "
+                       "taken afresh between set_policy and the bookkeeping: installing the document and recording "
+                       "its tag is not the one atomic step of the model (Reload.step, PApply)]"
+                       % (out.get("sp_unlocked", 0), out.get("sp_gap", 0)))
             chk.corr_break("overlapping checks: observables differ from the model after command %d: %s%s"
                            % (ix - 1, ", ".join(bad), why), c, impl={"at": ix - 1, "snapshot": i_s, "all": snaps},
                            model={"snapshot": m_s, "tag": tag_str(m_s[5])}, theorems=THEOREMS)
@@ -1666,7 +1736,9 @@ def run(chk):
         "assumed: in every overlapping-checks case guard.set_policy runs through a scheduler gate at entry and exit; a "
         "check arriving there without holding a lock object of the reloader is parked so that the other check runs in "
         "between, and the safety and convergence clauses are judged on the outcome (coverage.apply_atomicity counts the "
-        "set_policy calls seen with / without the lock; 'without' must be 0 for the model to describe the code).  With "
+        "set_policy calls seen with / without the lock; 'without' must be 0 for the model to describe the code); a check "
+        "that leaves the lock after set_policy and takes a reloader lock again for the bookkeeping is parked in that gap "
+        "as well (the reloader's lock attributes are replaced by delegating stand-ins that report acquisitions).  With "
         "the lock held no pre-emption is attempted inside the block (another check could only block on the lock)",
         "float arithmetic: inputs are dyadic, so the only roundings are `now + 0.2` and products with jitter_ratio 0.15; "
         "suppressed_until/backoff are compared with relative tolerance 1e-9",
@@ -1679,7 +1751,7 @@ def run(chk):
     conc = gen_conc_cases(chk)
     check_cases(chk, conc)
     n_fine = 0
-    if NONATOMIC["without_lock"]:
+    if NONATOMIC["without_lock"] or NONATOMIC["gap"]:
         # the apply-block is not atomic on this tree: enumerate the interleavings of its parts too (until enough
         # failing histories are at hand: the tree is defective anyway)
         fine = gen_fine_cases(chk)
@@ -1696,7 +1768,8 @@ def run(chk):
                           "overlapping_gated_apply_block_split": n_fine, "overlapping_free_running": len(stress)}
     chk.extra["apply_atomicity"] = {"set_policy_calls_with_reloader_lock_held": NONATOMIC["with_lock"],
                                     "set_policy_calls_without_it_(pre-empted_there)": NONATOMIC["without_lock"],
-                                    "overlapping_cases_with_such_a_call": NONATOMIC["cases"]}
+                                    "lock_released_between_set_policy_and_bookkeeping_(pre-empted_there)": NONATOMIC["gap"],
+                                    "overlapping_cases_with_either": NONATOMIC["cases"]}
     chk.extra["open_finding_witness_still_fails"] = {f: witness_fails(f) for f in ("F9", "F20")}
     chk.extra["partial"] = ("the polling thread's timing loop is modelled only as 'calls check repeatedly'; network and "
                             "S3 are fakes; each etag()/load() call is atomic with respect to the world")
